@@ -4,11 +4,29 @@ use crate::{
     attributes::{AttributeStorage, UnknownAttributeStorage},
     cmap::{CMap3, DartIdType, EdgeIdType, NULL_DART_ID, OrbitPolicy, SewError, VertexIdType},
     geometry::CoordsFloat,
-    stm::{Transaction, TransactionClosureResult, abort, try_or_coerce},
+    stm::{StmClosureResult, Transaction, TransactionClosureResult, abort, try_or_coerce},
 };
 
 /// **3-(un)sews internals**
 impl<T: CoordsFloat> CMap3<T> {
+    /// Darts of the two faces being (un)sewn, in matching order, as seen by the transaction.
+    fn face_sides_transac(
+        &self,
+        trans: &mut Transaction,
+        ld: DartIdType,
+        rd: DartIdType,
+    ) -> StmClosureResult<(Vec<DartIdType>, Vec<DartIdType>)> {
+        let mut l_side = Vec::with_capacity(10);
+        for d in self.orbit_transac(trans, OrbitPolicy::Custom(&[1, 0]), ld) {
+            l_side.push(d?);
+        }
+        let mut r_side = Vec::with_capacity(10);
+        for d in self.orbit_transac(trans, OrbitPolicy::Custom(&[0, 1]), rd) {
+            r_side.push(d?);
+        }
+        Ok((l_side, r_side))
+    }
+
     /// 3-sew operation.
     #[allow(clippy::too_many_lines)]
     pub(crate) fn three_sew(
@@ -18,23 +36,16 @@ impl<T: CoordsFloat> CMap3<T> {
         rd: DartIdType,
     ) -> TransactionClosureResult<(), SewError> {
         // using these custom orbits, I can get both dart of all sides, directly ordered
-        // for the merges
-        let l_face = self
-            .orbit(OrbitPolicy::Custom(&[1, 0]), ld)
-            .min()
-            .expect("E: unreachable");
-        let r_face = self
-            .orbit(OrbitPolicy::Custom(&[0, 1]), rd)
-            .min()
-            .expect("E: unreachable");
+        // for the merges; they are read through the transaction so that the faces are seen as
+        // the current transaction left them
+        let (l_side, r_side) = self.face_sides_transac(trans, ld, rd)?;
+        let l_face = l_side.iter().copied().min().expect("E: unreachable");
+        let r_face = r_side.iter().copied().min().expect("E: unreachable");
         let mut edges: Vec<(EdgeIdType, EdgeIdType)> = Vec::with_capacity(10);
         let mut vertices: Vec<(VertexIdType, VertexIdType)> = Vec::with_capacity(10);
 
         // read edge + vertex on the b1ld side. if b0ld == NULL, we need to read the left vertex
-        for (l, r) in self
-            .orbit(OrbitPolicy::Custom(&[1, 0]), ld)
-            .zip(self.orbit(OrbitPolicy::Custom(&[0, 1]), rd))
-        {
+        for (l, r) in l_side.into_iter().zip(r_side) {
             edges.push((
                 self.edge_id_transac(trans, l)?,
                 self.edge_id_transac(trans, r)?,
@@ -164,14 +175,9 @@ impl<T: CoordsFloat> CMap3<T> {
         try_or_coerce!(self.unlink::<3>(trans, ld), SewError);
 
         // faces
-        let l_face = self
-            .orbit(OrbitPolicy::Custom(&[1, 0]), ld)
-            .min()
-            .expect("E: unreachable");
-        let r_face = self
-            .orbit(OrbitPolicy::Custom(&[0, 1]), rd)
-            .min()
-            .expect("E: unreachable");
+        let (l_side, r_side) = self.face_sides_transac(trans, ld, rd)?;
+        let l_face = l_side.iter().copied().min().expect("E: unreachable");
+        let r_face = r_side.iter().copied().min().expect("E: unreachable");
         try_or_coerce!(
             self.attributes.split_attributes(
                 trans,
@@ -183,10 +189,7 @@ impl<T: CoordsFloat> CMap3<T> {
             SewError
         );
 
-        for (l, r) in self
-            .orbit(OrbitPolicy::Custom(&[1, 0]), ld)
-            .zip(self.orbit(OrbitPolicy::Custom(&[0, 1]), rd))
-        {
+        for (l, r) in l_side.into_iter().zip(r_side) {
             // edge
             let (eid_l, eid_r) = (
                 self.edge_id_transac(trans, l)?,
